@@ -325,5 +325,5 @@ func TestC10(t *testing.T) {
 	s := newSuite(t, "C10",
 		"well-formed traffic (0..4 requests answered, 0..3 with parked handlers, 0..3 written right behind) around one connection-scoped offence from a catalogue of 24 (frame over MAX_FRAME_SIZE, PING/RST_STREAM/WINDOW_UPDATE/SETTINGS of impossible size, SETTINGS ACK with payload / on a stream / invalid values, WINDOW_UPDATE 0 or overflow on the connection, DATA/HEADERS on stream 0, stray CONTINUATION, frame inside a header block, even or lower stream id, PUSH_PROMISE, padding >= payload, four kinds of undecodable header block) or an idle-timeout shutdown racing new requests; then the peer stays silent / keeps sending valid frames / floods 300+ frames / stops reading (bounded queue) / closes. Oracle: every GOAWAY's last-stream-id >= the highest stream whose request reached a handler at any time; its code is one RFC 7540 allows for the offence (bare close accepted); nothing written after the offending frame is dispatched; with all handlers released ServeConn returns (6 s bound; expiry is a violation only with a goroutine dump showing a permanently blocked library goroutine, otherwise inconclusive) and no goroutine of the connection stays behind. Non-trivial = >=1 request answered before the offence and traffic after it; distinct by case hash.")
 	defer s.finish()
-	runLane(s, Lane[c10Case]{Name: "offences", Journal: true, Quick: 1200, Thor: 160000, Gen: c10Gen, Run: c10Run})
+	runLane(s, Lane[c10Case]{Name: "offences", Journal: true, Quick: 1200, Thor: 40000, Gen: c10Gen, Run: c10Run})
 }
